@@ -79,6 +79,8 @@ class Trace:
             ev.update(extra)
         if self.views:
             ev['views'] = self.read_views()
+        if getattr(self, 'dynnat', False):
+            ev['dynnat'] = True
         self.events.append(ev)
         self.cur = len(self.events)
         return ev
